@@ -41,6 +41,8 @@ def ops(rng, tier, floats_only=False):
                 out.append(f"dextra {t} {i} #X=a200{hd}0180")
             out.append(f"dextra UnitE {i} #X=82018280{hd}")
         out.append("dextra UnitE ping #X=82008180")
+        for t_ in ("-", "61", "616263", "c3a9e282ac", "78" * 24):
+            out.append(f"dextra CowS {t_} 7")
         # a three-state type whose nil value (K) is not what its decoder makes of `null` (C): a written `null` belongs to the type's decoder
         for p_, q_ in (("C", "3"), ("C", "K"), ("3", "C"), ("C", "C"), ("K", "K"), ("5", "K"), ("24", "255")):
             out.append(f"dextra PatchA 7 {p_} {q_}")
@@ -71,7 +73,7 @@ def judge(op, impl, model, spec):
     if x and iw[0] != x[0]:
         return "violation"
     nbytes = 0 if iw[0] == "-" else len(iw[0]) // 2
-    want = ",".join(w[2:]) if w[1] != "CowA" else f"{w[2]},{w[3]}"
+    want = ",".join(w[2:]) if w[1] not in ("CowA", "CowS") else f"{w[2]},{w[3]}"
     if iw[2][4:] != want or int(iw[3][4:]) != nbytes or int(iw[1][4:]) != nbytes:
         return "violation"
     return "ok"
